@@ -499,6 +499,19 @@ def install(sched, net, modules=None):
         ftls = FakeTLS(net)
         ftls.SSLSocket = SSocket
         patches.append((H, "ssl", ftls))
+    # the same objects reached through `from x import y` style imports inside the library's modules
+    import selectors as _sel
+    import time as _time
+    import websocket._handshake as HS
+    import websocket._url as U
+    import websocket._utils as UT
+    real = {id(_time.time): ft.time, id(_time.sleep): ft.sleep, id(_time.monotonic): ft.monotonic,
+            id(_th.Thread): th.Thread, id(_th.Event): th.Event, id(_th.Lock): th.Lock, id(_th.RLock): th.RLock,
+            id(_sel.DefaultSelector): sel.DefaultSelector}
+    for m in (A, C, D, F, H, S, HS, U, UT):
+        for n, v in list(vars(m).items()):
+            if not n.startswith("__") and id(v) in real and (m, n) not in [(pm, pn) for pm, pn, _ in patches]:
+                patches.append((m, n, real[id(v)]))
     saved = [(m, n, getattr(m, n)) for m, n, _ in patches]
     for m, n, v in patches:
         setattr(m, n, v)
